@@ -43,10 +43,13 @@ Const(v) == [p \in Page |-> v]
 (* logical application of one log entry to a (file, wal) pair *)
 ApplyFW(fw, op, i) ==
   IF op.k = "w" THEN [f |-> fw.f, w |-> [p \in Page |-> IF p \in op.pages THEN Over(fw.f, fw.w)[p] + 1 ELSE fw.w[p]], ld |-> fw.ld]
-  ELSE [f |-> Const(10 * i), w |-> Empty, ld |-> TRUE]
-RECURSIVE ReplayFW(_, _, _)
-ReplayFW(fw, from, to) == IF from > to THEN fw ELSE ReplayFW(ApplyFW(fw, log[from], from), from + 1, to)
-Expected(i) == LET r == ReplayFW([f |-> Empty, w |-> Empty, ld |-> FALSE], 1, i) IN Over(r.f, r.w)
+  ELSE [f |-> Const(op.v), w |-> Empty, ld |-> TRUE]
+RECURSIVE ReplayL(_, _, _, _)
+ReplayL(lg, fw, from, to) == IF from > to THEN fw ELSE ReplayL(lg, ApplyFW(fw, lg[from], from), from + 1, to)
+ReplayFW(fw, from, to) == ReplayL(log, fw, from, to)
+(* the logical database after the first i entries of a log: each applied exactly once, in order *)
+ExpectedL(lg, i) == LET r == ReplayL(lg, [f |-> Empty, w |-> Empty, ld |-> FALSE], 1, i) IN Over(r.f, r.w)
+Expected(i) == ExpectedL(log, i)
 
 NewestIdx == IF snaps = <<>> THEN 0 ELSE snaps[Len(snaps)].idx
 LastFullPos == LET S == {i \in 1..Len(snaps) : snaps[i].kind = "full"} IN
@@ -64,13 +67,13 @@ Init == /\ log = <<>> /\ logLo = 0 /\ up = TRUE /\ dbfile = Empty /\ wal = Empty
 (* ------------------------------- applying entries ------------------------------- *)
 Write(S) ==
   /\ up /\ Len(log) < MaxIdx /\ S # {}
-  /\ log' = Append(log, [k |-> "w", pages |-> S])
+  /\ log' = Append(log, [k |-> "w", pages |-> S, v |-> 0])
   /\ wal' = [p \in Page |-> IF p \in S THEN Live[p] + 1 ELSE wal[p]]
   /\ UNCHANGED <<logLo, up, dbfile, modS, staging, snaps, fullNeeded, fp, pend, nsnap, ncrash>>
 
 Load ==
   /\ up /\ Len(log) < MaxIdx
-  /\ log' = Append(log, [k |-> "load", pages |-> {}])
+  /\ log' = Append(log, [k |-> "load", pages |-> {}, v |-> 10 * (Len(log) + 1)])
   /\ dbfile' = Const(10 * (Len(log) + 1)) /\ wal' = Empty /\ modS' = IF modS = "zero" THEN "zero" ELSE "diff"
   /\ fullNeeded' = (fullNeeded \/ FullAfterLoad)
   /\ pend' = IF pend.ph = "none" THEN pend ELSE [pend EXCEPT !.loaded = TRUE]
